@@ -57,9 +57,9 @@ def run_case(c):
             inp = c["cap"]
         elif form == "dims":         # arrays: lengths of the dynamic dimensions
             inp = None
-        elif form == "xobj":
+        elif form in ("xobj", "xobj_oo"):
             srcbuf = CTX.new_buffer(4096) if c.get("xobj_other_buffer", True) else b
-            inp = X.to_input(t, v, "xobj", buf=srcbuf)
+            inp = X.to_input(t, v, form, buf=srcbuf)
         else:
             inp = X.to_input(t, v, form)
     except BaseException as e:  # noqa
